@@ -1,11 +1,12 @@
 """C07 — check, compile and run agree on which sources are valid (CLI level)."""
 import os, random, subprocess, time
 import asmgen, clicommon, asmcommon
+import core
 from core import log
 from props import C04, C06
 
 ASSUMPTIONS = [
-    "`lace watch` re-checks are driven for real only in the thorough tier (inotify); its closure is assemble + reset_state, covered in-process by C19",
+    "`lace watch` is driven for real (inotify works in this sandbox): ~10 re-checks in the quick tier, ~19 in the thorough tier",
     "every generated source starts with `halt`, so that `lace run` terminates at once when the source assembles",
 ]
 
@@ -94,55 +95,87 @@ def correspondence(ctx, violations, known_hits):
             if nv <= 8:
                 violations.append({"kind": "verdicts-disagree", "tag": tag, "feature_stack": feat, "source": text,
                                    "check_exit": c, "compile_exit": m, "run_exit": r, "model_exit": me, "check_stderr": err.decode(errors="replace")})
-    watch = None
-    if ctx.tier != "quick":
-        watch = drive_watch(ctx, exe, srcs, model, violations)
-        ev += watch["rechecks"]
+    watch = drive_watch(ctx, exe, srcs, model, violations)
+    ev += watch["rechecks"]
     ctx.cleanup()
     return {
         "evaluations": ev, "distinct_nontrivial": len(sigs),
         "rule": "CLI exit status of `lace check`, `lace compile`, `lace run` on the same file under each feature setting, vs each other "
                 "and vs the model's verdict: sources whose only error is a too-distant label reference at EVERY statement position x "
                 "every PC-relative instruction (forwards and backwards), sources using each stack mnemonic, the C04 boundary corpus, "
-                "random valid/invalid/mutated programs; thorough: one real `lace watch` process driven through file rewrites; "
+                "random valid/invalid/mutated programs; one real `lace watch` process driven through a designed sequence of file rewrites (re-checks that fail after recording labels, then sources that reuse or only reference those labels, emission-only errors), each re-check's verdict compared with the model's; "
                 "distinct = distinct (source class, verdict)",
         "histogram": hist, "samples": samples, "mismatches": nv, "watch": watch,
     }
 
 
-def drive_watch(ctx, exe, srcs, model, violations):
-    """One real `lace watch` process; rewrite the file, compare each re-check's verdict with the model."""
+def drive_watch(ctx, exe, srcs, model, violations, seq=None):
+    """One real `lace watch` process; rewrite the file, compare each re-check's verdict with the model's verdict
+    for the same contents (= what `lace check` must say).  The sequence starts with re-checks that FAIL after
+    recording labels, followed by sources that reuse / only reference those labels: a re-check must not depend
+    on what an earlier re-check left behind."""
+    designed = [
+        "lbl_a halt\nlbl_b add r0\n",              # fails after recording lbl_a, lbl_b
+        "lbl_a halt\nlbl_b br lbl_a\n",            # valid, same labels
+        "phantom halt\nother add r0 r0\n",         # fails after recording phantom
+        "br phantom\nhalt\n",                       # invalid: phantom is not defined here
+        "far halt\n.blkw x200\nbr far\n",          # fails only at emission
+        "far halt\nbr far\n",                       # valid
+        "halt\n",
+    ]
+    if seq is None:
+        extra = [srcs[i][1] for i in range(len(srcs)) if srcs[i][0] == 0][:200:17][: (3 if ctx.tier == "quick" else 12)]
+        seq = designed + extra
+    verdicts = ctx.run_model([C06.obj_case(0, t) for t in seq], tag="watchobj")
     d = clicommon.fresh_dir(ctx, "watchdir")
     logf = os.path.join(ctx.work, "watch.out")
     f = os.path.join(d, "w.asm")
     open(f, "w").write("halt\n")
     out = open(logf, "wb")
-    p = subprocess.Popen([exe, "watch", f], cwd=d, stdout=out, stderr=subprocess.STDOUT,
+    p = subprocess.Popen([exe, "watch", f], cwd=d, stdout=out, stderr=subprocess.STDOUT, stdin=subprocess.DEVNULL,
                          env=dict(os.environ, NO_COLOR="1"))
     rechecks, bad = 0, 0
     try:
-        time.sleep(1.5)
-        picks = [i for i in range(len(srcs)) if srcs[i][0] == 0][:200:17][:10]
-        for i in picks:
+        time.sleep(1.2)
+        for k, text in enumerate(seq):
             before = os.path.getsize(logf)
-            open(f, "w", encoding="utf-8").write(srcs[i][1])
-            time.sleep(1.6)
-            out.flush()
-            text = open(logf, "rb").read()[before:].decode(errors="replace")
-            if "Re-checking" not in text:
+            with open(f, "w", encoding="utf-8") as fh:       # in place: the watcher follows the inode
+                fh.write(text)
+            got, stable = "", 0
+            for _ in range(40):
+                time.sleep(0.1)
+                now = open(logf, "rb").read()[before:].decode(errors="replace")
+                stable = stable + 1 if (now == got and "Re-checking" in now) else 0
+                got = now
+                if stable >= 5:
+                    break
+            if "Re-checking" not in got:
                 continue
             rechecks += 1
-            last = text.split("Re-checking")[-1]
+            last = got.split("Re-checking")[-1]
             ok = "no errors found" in last
-            me = int(model[i][0].split()[0], 16)
+            me = int(verdicts[k][0].split()[0], 16)
             if ok != (me == 0):
                 bad += 1
-                violations.append({"kind": "watch-recheck-disagrees", "source": srcs[i][1], "watch_output": last[-400:], "model_exit": me})
+                violations.append({"kind": "watch-recheck-disagrees", "position_in_sequence": k, "sequence": seq[: k + 1],
+                                   "source": text, "watch_output": last[-400:], "model_exit": me})
     finally:
         p.kill(); p.wait(); out.close()
-    return {"rechecks": rechecks, "disagreements": bad}
+    return {"rechecks": rechecks, "disagreements": bad, "sequence_length": len(seq)}
 
 
 def replay(ctx, payload):
     log(str({k: payload.get(k) for k in ("kind", "source", "check_exit", "compile_exit", "run_exit", "model_exit")}))
+    if payload.get("kind") == "watch-recheck-disagrees" and payload.get("sequence"):
+        exe, out = core.build_lace_cli()
+        if exe is None:
+            log(out[-2000:])
+            return 2
+        v = []
+        r = drive_watch(ctx, exe, [], [], v, seq=payload["sequence"])
+        log(f"re-driven `lace watch` through the recorded sequence: {r}")
+        for x in v:
+            log(f"  re-check {x['position_in_sequence']} disagrees: model exit {x['model_exit']}, watch said: {x['watch_output'][-160:]!r}")
+        return 1 if v else 0
+    log("re-run ./lv check C07 to re-evaluate; the payload holds the source and both sides' verdicts")
     return 1
